@@ -14,7 +14,7 @@ pub const INFO: CheckInfo = CheckInfo {
     rule: "bounded exhaustive enumeration of (configuration x input length x worst-case input pattern): ALL 9450 configurations (level 0..9 x 5 strategies x windowBits 9..15 x memLevel 1..9 x raw/zlib/gzip) x lengths {0..40, 126..130, 254..258, 507..520, 4095..4097} (boundary lengths of the stored-block, pending-buffer and symbol-buffer limits) and the edge configurations x {65535..65537, 200000}; patterns {incompressible (lcg), flat 256-symbol distribution, 9-bit-literals only, alternating incompressible/compressible blocks sized to the symbol buffer}; every string over a 4-symbol alphabet up to length 4 (6); gzip headers {none, extra 0/5/65535, name/comment 0/5/600, hcrc}; preset dictionaries {3, w, 2w}. For each: deflateBound is queried on the configured stream (after header/dictionary were installed), the output buffer is exactly that size with a PROT_NONE page behind it, and ONE deflate(Z_FINISH) call must return Z_STREAM_END with total_out <= bound. compress/compress2/compress_slice into compressBound likewise. distinct_nontrivial = distinct (configuration class, length, slack = bound - size) outcomes; the minimum slack seen is reported.",
     assumptions: &["inputs other than the listed worst-case patterns at the listed lengths are not covered; the bound is a claim over all inputs of a length, the patterns are the known worst cases per configuration class"],
     bound_quick: "K-all x 3 patterns x 66 lengths (stride 2 over memLevel/windowBits pairs), edge configs x big lengths",
-    bound_thorough: "K-all x 4 patterns x all lengths; tiny strings (4,6) x K-small",
+    bound_thorough: "K-all (9450 configurations) x 4 patterns x every length 0..1100 and 2^k +- 2 up to 64 KiB; tiny strings (4,6) x K-small",
 };
 
 fn patterns(n: usize, m: usize) -> Vec<(&'static str, Vec<u8>)> {
@@ -138,6 +138,13 @@ pub fn run(ctx: &mut Ctx) {
     lens.extend(254..=258);
     lens.extend(507..=520);
     lens.extend(4095..=4097);
+    if !quick {
+        // thorough: every length up to 1100 and the neighbourhoods of the powers of two up to 64 KiB
+        lens = (0..=1100).collect();
+        for k in 11..=16 {
+            lens.extend((1usize << k) - 2..=(1usize << k) + 2);
+        }
+    }
     let kall = k_all();
     for (ci, cfg) in kall.iter().enumerate() {
         if quick && (cfg.mem_level + cfg.wbits) % 2 != 0 && !(cfg.mem_level == 1 || cfg.mem_level == 9) {
